@@ -52,7 +52,7 @@ func runReplay(rs *ReplaySpec, repo, verif, obligation, property string, seed in
 	}
 	defer os.RemoveAll(tmp)
 	modDir := filepath.Join(repo, rs.Module)
-	target := filepath.Join(modDir, rs.PkgDir, "zz_verif_replay_"+strings.ToLower(rs.Run)+"_test.go")
+	target := filepath.Join(modDir, rs.PkgDir, "zz_verif_replay_"+strings.ToLower(sanitize(rs.Run))+"_test.go")
 	ov := map[string]map[string]string{"Replace": {target: filepath.Join(verif, rs.File)}}
 	data, _ := json.Marshal(ov)
 	ovPath := filepath.Join(tmp, "overlay.json")
